@@ -21,6 +21,7 @@ def run_bundle(bundle, root='/repo', only=None, timeout_ms=60000):
         eng.obls += mod.extra_obligations(repo, D, None)
     for ob in eng.obls:
         ob.logic = getattr(D, 'smt_logic', 'ALL')
+        ob.portfolio = getattr(D, 'portfolio', False)
     gen = time.time() - t0
     t1 = time.time()
     discharge(eng.obls, timeout_ms)
